@@ -24,7 +24,7 @@ CLAIMED = {
         note="Trusted: Lean kernel + standard axioms, hand-written cache model (tied by the cache-off differential and the site-history programs), cache-off hook; REPL cache replacement is C19's known finding D13",
         technique="Lean 4 history-transparency proof of the cache state machines + cache-off differential and site-history streams"),
     "C14": dict(
-        text="Lean theorems over all 2^64 bit patterns with constants and method bodies regenerated from value.rs: round-trip, injectivity, class disjointness, kind/test agreement, arithmetic NaNs are numbers, the collector dereferences exactly the object-tagged patterns (boxed Value::trace regenerated), equality agreement outside the exactly stated excluded set (and real difference on it), hash consistency; witnesses for D8; value engine in both builds vs model and Spec on boundary patterns; generated programs, object-zoo programs under a collection at every allocation and the fixture corpus diffed across both builds",
+        text="Lean theorems over all 2^64 bit patterns with constants and method bodies regenerated from value.rs: round-trip, injectivity, class disjointness, kind/test agreement, arithmetic NaNs are numbers, the collector dereferences exactly the object-tagged patterns (boxed Value::trace regenerated), equality agreement with the Spec on all pairs (C14_full is a theorem: D8 repaired in /repo, boxed PartialEq/Hash regenerated from the impl text), hash consistency on all words and identical hashing of numbers in both builds; open finding DC14.1 (hash of nil/bool keys differs: map order); value engine in both builds vs model and Spec on boundary patterns; generated programs, object-zoo programs under a collection at every allocation and the fixture corpus diffed across both builds",
         note="Trusted: Lean kernel + standard axioms, gen_nanbox translator (typed expression translation of value.rs), harness built in both feature configurations; IEEE semantics of f64 shared by Rust and Lean Float for the spec cross-check",
         technique="Lean 4 proofs over BitVec/Nat bit patterns with generated definitions + two-build differential streams"),
     "C11": dict(
@@ -36,7 +36,7 @@ CLAIMED = {
         note="Trusted: Lean kernel + the three standard axioms, translator rows for byte_code.rs/peephole.rs, hand-written optimiser model (checked against peephole_optimize through the cfg hook), free semantics as Spec; the local laws are proved for the free semantics, not for ops.rs",
         technique="Lean 4 semantic-preservation proof (generic over instruction semantics) + generated rule table + differential windows/streams"),
     "C18": dict(
-        text="Lean theorems: encoder line table aligned with code bytes for every instruction list (generated per-helper emit tables), saved ip-1 lies inside the suspended instruction incl. its cache slot, the optimiser keeps slots behind their owners, the backtrace captured by an unwind lists exactly the frames between raise and catching frame innermost first, the outcome->status table is total and faithful also for exits and errors that cross any number of native callbacks and for compile errors of imported modules, a nested interpreter loop only runs handlers above its bottom frame; witnesses for the one open traceback-line defect (D181; D182-D185 repaired in /repo); line tables of every dumped function recomputed by the model; generated call-chain programs with randomised line layout judged by an executable Lean Spec and the exact Lines model",
+        text="Lean theorems: encoder line table aligned with code bytes for every instruction list (generated per-helper emit tables), saved ip-1 lies inside the suspended instruction incl. its cache slot, the optimiser keeps slots behind their owners, the backtrace captured by an unwind lists exactly the frames between raise and catching frame innermost first, the outcome->status table is total and faithful also for exits and errors that cross any number of native callbacks and for compile errors of imported modules, a nested interpreter loop only runs handlers above its bottom frame; the traceback of an unhandled error lists exactly the frames of the moment of the raise with their raise-time ips however many catch clauses declined it (D181-D185 repaired in /repo; open: D186, frames abandoned when a catch filter is not a class); line tables of every dumped function recomputed by the model; generated call-chain programs with randomised line layout judged by an executable Lean Spec and the exact Lines model",
         note="Trusted: Lean kernel + standard axioms, translator rows (encoder helpers, run status), hand-written unwinding model (tied by the call-chain stream), release harness build; which token's line the compiler attaches is sampled, not proved",
         technique="Lean 4 proofs about the line-table encoder and the unwinding machine + generated tables + Spec/model/implementation stream"),
     "C01": dict(
@@ -80,8 +80,8 @@ CLAIMED = {
         note="Trusted: Lean kernel + standard axioms, hand-written import model (tied by the multi-file stream), harness; termination of every run (C17_full) not proved",
         technique="Lean 4 invariant proofs over the import machine + multi-file program stream"),
     "C19": dict(
-        text="Lean theorems on the REPL compile loop: symbols persist to the same slot across entries, a failing compile changes nothing, pinned cache numbering faults exactly on the D13 signature (witness + general theorem) and never outside it, persistent numbering keeps slots in range; generated sessions run through Vm::repl vs the concatenated module, plus a compile-log tie of module slots and cache sites",
-        note="Trusted: Lean kernel + standard axioms, hand-written REPL model, vh_repl harness; D13 is a known finding (C19_full false on the pinned model)",
+        text="Lean theorems on the REPL compile loop: symbols persist to the same slot across entries, a failing compile changes nothing, a whole session's property and invoke cache ids are consecutive, disjoint and inside vectors that only grow (C19_full holds: D13 repaired in /repo, the old restarted numbering kept as a regression fact); generated sessions run through Vm::repl vs the concatenated module, incl. functions with cache sites defined in one entry and called from later ones, plus a compile-log tie of module slots and cache ids read back from the encoded bytes",
+        note="Trusted: Lean kernel + standard axioms, hand-written REPL model, vh_repl harness; the lengths of the cache vectors are not observable through a hook (ids in range are proved on the model and seen as the absence of the debug assertion); that grow keeps cached state is exercised, not modelled",
         technique="Lean 4 invariant proofs over REPL sessions + session/concatenation differential stream"),
     "C20": dict(
         text="Lean theorems (same allocator model): after every collection bytes_allocated = sum of owned sizes, nursery empty, next_gc = 2x; after a full collection in any reachable state the allocator owns exactly the reachable objects and the intern table is exactly the reachable strings; only garbage is reclaimed; witness for the repaired nursery accounting defect; allocator stream judged by an accounting monitor, layout-checking global allocator (size/alignment of every release; every owned block's accounted size vs the size it was obtained with), stats after forced full collections of real programs",
